@@ -360,7 +360,12 @@ class ExprBuilder:
         if k in ("ref", "rawptr", "copyforderef"):
             return self.place(rv["place"])
         if k == "binop":
-            return self.mk_bin(rv["op"], self.op(rv["a"]), self.op(rv["b"]))
+            e = self.mk_bin(rv["op"], self.op(rv["a"]), self.op(rv["b"]))
+            # integer division / remainder truncate: mark them so that the polynomial domain keeps
+            # them opaque instead of treating a/b as the exact quotient
+            if rv["op"] in ("Div", "Rem") and e[0] == "bin" and len(e) == 4 and self._is_int_operand(rv["a"]):
+                e = e + ("int",)
+            return e
         if k == "unop":
             if rv["op"] == "PtrMetadata":
                 return ("len", self.op(rv["a"]))
@@ -393,6 +398,17 @@ class ExprBuilder:
 
     def mk_bin(self, op, a, b):
         return ("bin", op, a, b)
+
+    INT_TYS = ("usize", "isize", "u8", "u16", "u32", "u64", "u128", "i8", "i16", "i32", "i64", "i128")
+
+    def _is_int_operand(self, o):
+        if o.get("k") in ("move", "copy"):
+            pl = o["place"]
+            if not pl["proj"]:
+                return self.body.local_ty(pl["local"]) in self.INT_TYS
+            return False
+        ty = o.get("ty") or ""
+        return ty in self.INT_TYS or (o.get("k") == "const" and "int" in o and "float" not in o)
 
     def call(self, t):
         c = t["callee"]
@@ -657,6 +673,13 @@ def to_poly(e, atomize=None):
         return Poly.const(v)
     if t == "bin":
         op = e[1]
+        if op in ("Div", "Rem") and len(e) > 4 and e[4] == "int":
+            # truncating integer division: exact only when both sides are constants that divide
+            a = to_poly(e[2], atomize)
+            b = to_poly(e[3], atomize)
+            if op == "Div" and a.is_const() and b.is_const() and b.const_value() != 0 and (a.const_value() / b.const_value()).denominator == 1:
+                return Poly.const(a.const_value() / b.const_value())
+            return Poly.atom(("i" + op.lower(), a.key(), b.key()))
         if op in ("Add", "Sub", "Mul", "Div", "AddUnchecked", "SubUnchecked", "MulUnchecked"):
             a = to_poly(e[2], atomize)
             b = to_poly(e[3], atomize)
